@@ -384,10 +384,15 @@ func runACLHistory(tr *Trace, h int, r *rand.Rand, length int, cfgFile string, t
 		case x < 47: // AUTH
 			c := 1 + r.Intn(3)
 			user := pick(r, []string{"u1", "u2", "", "default", "ghost"})
-			pw := pick(r, []string{"p1", "p2", "root", "p1", "wrong"})
+			pw := pick(r, []string{"p1", "p2", "root", "p1", "wrong", "#p1", "#p2"})
 			pwWire := pwString(pw)
 			if pw == "root" {
 				pwWire = aclRootPw
+			}
+			if strings.HasPrefix(pw, "#") {
+				// the stored SHA-256 digest itself, offered as the password (what ACL LIST shows and ACL SAVE writes):
+				// it is nobody's password
+				pwWire = pwHash(pw[1:])
 			}
 			var rep Reply
 			form := "auth2"
